@@ -321,15 +321,20 @@ impl OutstandingMessageTracker {
 //@ ensures[C02,C04] forall|id: AckId| final(self)@.dom().contains(id) ==> final(self)@[id] == old(self)@[id]
 //@ ensures[C02,C04] taken_ok(result@, old(self)@, time.v())
 //@ ensures[C01,C04] result.len() + final(self)@.dom().len() == old(self)@.dom().len()
+//@ # C01: every lease that leaves the tracker is handed back (nothing is dropped on expiry)
+//@ ensures[C01,C04] forall|id: AckId| old(self)@.dom().contains(id) && !final(self)@.dom().contains(id) ==> exists|i: int| 0 <= i < result.len() && (#[trigger] result[i]).id() == id
 //@ loop 1 invariant self.wf()
 //@ loop 1 invariant forall|id: AckId| self@.dom().contains(id) ==> old(self)@.dom().contains(id) && self@[id] == old(self)@[id]
 //@ loop 1 invariant forall|id: AckId| old(self)@.dom().contains(id) && !self@.dom().contains(id) ==> old(self)@[id].dl().t() <= time.v()
 //@ loop 1 invariant taken_ok(result@, old(self)@, time.v())
 //@ loop 1 invariant forall|i: int| 0 <= i < result.len() ==> !self@.dom().contains(#[trigger] result[i].id())
 //@ loop 1 invariant result.len() + self@.dom().len() == old(self)@.dom().len()
+//@ loop 1 invariant forall|id: AckId| old(self)@.dom().contains(id) && !self@.dom().contains(id) ==> exists|i: int| 0 <= i < result.len() && (#[trigger] result[i]).id() == id
 //@ loop 1 ensures self.expirations@.len() == 0
 //@ loop 1 decreases self.expirations@.len()
 //@ proof-before /^\s*result\s*$/ { self.expirations@.lemma_len0_is_empty(); }
+//@ ghost-before /result\.push\(message\);/ let ghost prev = result@;
+//@ loop 1 proof-end { assert forall|id: AckId| old(self)@.dom().contains(id) && !self@.dom().contains(id) implies exists|i: int| 0 <= i < result.len() && (#[trigger] result[i]).id() == id by { if id == ack_id { assert(result[result.len() - 1].id() == id); } else { let i = choose|i: int| 0 <= i < prev.len() && (#[trigger] prev[i]).id() == id; assert(result[i] == prev[i]); } } }
 //@end
 
 //@fn src/subscriptions/outstanding.rs OutstandingMessageTracker::remove tags=C02
@@ -519,6 +524,13 @@ pub open spec fn modify_view(s: SubView, mods: Seq<DeadlineModification>) -> Sub
 pub open spec fn pull_view(s: SubView, v: Seq<PulledMessage>) -> SubView {
     SubView { backlog: s.backlog.skip(v.len() as int), out: out_after_pull(s, v), next: s.next + v.len(), deleted: false }
 }
+/// state after a Delete request: unchanged if already deleted; emptied and marked deleted; or (topic mailbox closed,
+/// the request fails) only marked deleted
+pub open spec fn delete_view_ok(s: SubView, t: SubView) -> bool {
+    ||| (s.deleted && t == s)
+    ||| t == (SubView { backlog: Seq::empty(), out: Map::empty(), next: s.next, deleted: true })
+    ||| t == (SubView { deleted: true, ..s })
+}
 /// state effect of one mailbox turn of the subscription actor
 pub open spec fn turn_ok(s: SubView, request: SubscriptionRequest, t: SubView, d: nat) -> bool {
     match request {
@@ -534,7 +546,7 @@ pub open spec fn turn_ok(s: SubView, request: SubscriptionRequest, t: SubView, d
             if s.deleted { t == s } else { t == (SubView { out: s.out.remove_keys(ack_ids@.to_set()), ..s }) },
         SubscriptionRequest::ModifyDeadline { deadline_modifications, responder } =>
             if s.deleted { t == s } else { t == modify_view(s, deadline_modifications@) },
-        SubscriptionRequest::Delete { responder } => t.deleted,
+        SubscriptionRequest::Delete { responder } => delete_view_ok(s, t),
         SubscriptionRequest::GetStats { responder } => t == s,
     }
 }
@@ -671,6 +683,7 @@ impl SubscriptionActor {
 //@ ensures[C11] old(self)@.deleted ==> r.is_ok() && final(self)@ == old(self)@
 //@ ensures[C11] final(self)@.deleted
 //@ ensures[C11] r.is_ok() && !old(self)@.deleted ==> final(self)@ == (SubView { backlog: Seq::empty(), out: Leases::empty(), next: old(self)@.next, deleted: true })
+//@ ensures[C11] r.is_err() ==> final(self)@ == (SubView { deleted: true, ..old(self)@ })
 //@end
 
 //@fn src/subscriptions/subscription_actor.rs SubscriptionActor::post_messages tags=C01,C08,C11
@@ -680,6 +693,48 @@ impl SubscriptionActor {
 //@ ensures[C01,C08] !old(self)@.deleted ==> final(self)@ == (SubView { backlog: old(self)@.backlog + new_messages@, ..old(self)@ })
 //@end
 }
+
+//@tags C01 C02 C03 C04 C08
+//@include lemmas/sub_history.rs
+
+/// GLUE MIRROR (A-GLUE, not extracted): the expiry branch of the actor loop is
+///     Some(expired) = actor.outstanding.poll_next_expired() => actor.handle_expired_messages(expired)
+/// and poll_next_expired returns `take_expired(&Instant::now())` when that is non-empty
+/// (src/subscriptions/subscription_actor.rs:124-126, src/subscriptions/outstanding.rs:180-186).
+/// This two-line mirror checks that the two real contracts compose to the `Expire` step of the history model.
+fn expire_turn_mirror(actor: &mut SubscriptionActor, now: &Instant)
+    requires old(actor).inv()
+    ensures final(actor).inv(), exists|exp: Seq<PulledMessage>| expire_post(old(actor)@, now.v(), exp, final(actor)@)
+{
+    let expired = actor.outstanding.take_expired(now);
+    let ghost exp = expired@;
+    actor.handle_expired_messages(expired);
+    proof {
+        assert(msgs_of(exp) =~= exp.map_values(|p: PulledMessage| p.msg()));
+        assert(expire_post(old(actor)@, now.v(), exp, actor@));
+    }
+}
+
+//@tags C15
+/// C15: a unary Pull with max_messages = m >= 1 passes `m as u16` to the actor; whatever that truncation yields,
+/// the batch never has more than m messages (and is non-empty iff the backlog is non-empty).
+pub proof fn lemma_pull_limit(m: i32, backlog_len: int)
+    requires m >= 1, backlog_len >= 0
+    ensures
+        pull_count(backlog_len, m as u16) <= m,
+        pull_count(backlog_len, m as u16) == 0 <==> backlog_len == 0,
+{
+    let c = m as u16;
+    assert(m as u16 == (m as u32 % 0x1_0000) as u16) by (bit_vector);
+    if c == 0 {
+        assert(pull_cap(backlog_len, c) == 0);
+    } else {
+        assert(c as int <= m) by {
+            assert(m >= 1 ==> ((m as u32 % 0x1_0000) as u16) as int <= m as int) by (bit_vector);
+        }
+    }
+}
+//@tags
 
 } // verus!
 fn main() {}
